@@ -392,7 +392,10 @@ class Fill(CellModifierInput):
 
     def push_to_cells(self):
         def get_universe(number):
-            return self._problem.universes[number]
+            try:
+                return self._problem.universes[number]
+            except KeyError:
+                raise BrokenObjectLinkError("Cell fill", "", "Universe", number)
 
         if self.in_cell_block:
             if self.old_transform_number:
